@@ -33,7 +33,8 @@ EXPLANATION = (
     "_LIQUIDS/_GASES has the files call_lib opens. (R19.5) create_pipe(s) write the values of load_std_type (through "
     "retrieve_u) unless the deprecated keyword arguments override them. (R19.6, thorough) with SUM as an opaque linear "
     "operator the 1-d and 2-d arms of each calculate_mixture_* agree and equal the documented rule; the mass fraction "
-    "is x M / SUM(x M). (R19.7) the assumption that interp1d interpolates linearly through the tabulated points holds "
+    "is x M / SUM(x M). (R19.8) result buffers of the library classes that are filled with computed values are float by construction "
+    "(not *_like / asarray of the caller's argument without dtype=float). (R19.7) the assumption that interp1d interpolates linearly through the tabulated points holds "
     "for its defaults only: every call site of scipy's interp1d in the package keeps kind linear, leaves assume_sorted "
     "False (so any table order is reproduced) and passes no silent constant fill. Not decided: interpolation values (SciPy), bounds of mixture values.")
 ASSUMPTIONS = ["scipy.interpolate.interp1d interpolates linearly and extrapolates linearly with fill_value='extrapolate'",
@@ -408,5 +409,35 @@ def r19_7(run):
     run.floor(8)
 
 
-RULES = [("R19.7", r19_7), ("R19.1", r19_1), ("R19.2", r19_2), ("R19.3", r19_3), ("R19.4", r19_4), ("R19.5", r19_5)]
+def r19_8(run):
+    """a result buffer that is filled with values of a float formula must be float by construction: a buffer created with
+    *_like(<argument>) (or np.asarray(<argument>) written into) inherits the dtype of the caller's query, and an integer-typed
+    query silently truncates the regression values"""
+    from ..arrnf import ANF, base_of, contains, show as tshow, walk
+    ix = run.index
+    n = 0
+    mods = ("pandapipes.std_types.std_type_class", "pandapipes.properties.fluids", "pandapipes.properties.properties_toolbox")
+    for mod in mods:
+        mi = ix.module(mod)
+        fns = list(mi.functions.values()) + [m for c in mi.classes.values() for m in c.methods.values()]
+        for f in fns:
+            r = ANF(ix, f, strip=False).run()
+            params = [("n", p) for p in f.params() if p not in ("self", "cls")]
+            for s_ in r.stores():
+                b = base_of(s_.base)
+                if b[0] == "call" and b[1][0] == "x" and b[1][1].startswith("numpy."):
+                    n += 1
+                    run.analysed(f)
+                    like = b[1][1].endswith("_like") or b[1][1] in ("numpy.asarray", "numpy.array", "numpy.asanyarray")
+                    from_arg = any(contains(a, p) for a in b[2] for p in params)
+                    dt = dict(b[3]).get("dtype")
+                    ok = not (like and from_arg) or (dt is not None and dt in (("x", "builtins.float"), ("x", "numpy.float64"), ("c", "float")))
+                    run.ob("%s|result-buffer-is-float|%s" % (f.short, tshow(b)[:50]), ok,
+                           "the array %s fills with computed values does not inherit the dtype of its argument" % f.short,
+                           run.where(f, s_.node), detail=tshow(b)[:120])
+    run.ob("result-buffers-found", n >= 1, "stores into freshly created numpy buffers in the library classes: %d" % n, "std_types / properties")
+    run.floor(2)
+
+
+RULES = [("R19.8", r19_8), ("R19.7", r19_7), ("R19.1", r19_1), ("R19.2", r19_2), ("R19.3", r19_3), ("R19.4", r19_4), ("R19.5", r19_5)]
 THOROUGH = [("R19.6", r19_6)]
